@@ -335,6 +335,7 @@ def textexec(run, fx):
                         for f in grec['fields']:
                             seg[PG + f['n']] = None
                         seg[PG + 'm_charinfo'] = O.It(O.Vec([O.Rec() for _ in range(8)]), 0)
+                        seg[PG + 'm_numCharinfo'] = nchars        # what Segment::Segment(nChars, ..) records: room for that many
                         calls = []
 
                         def append(it_, f_, e_, obj, args):
@@ -391,9 +392,55 @@ def textexec(run, fx):
             run.held('NULSTOP', inst, rt.where(), '%d abstract executions: NUL-terminated texts of 0..3 units x nChars 0..len+2' % cases)
 
 
+def ncharsflow(run, fx):
+    """TEXTFLOW, the count: "stops at nChars characters or at the NUL, whichever comes first" -- nothing else.  The caller's nChars
+    reaches the decoding loop as it was given: gr_make_seg -> makeAndInitialize -> Segment::Segment (room for that many) and
+    Segment::read_text -> process_utf_data each receive the parameter itself, and no function on the way assigns to it (a clamp to a
+    'reasonable maximum' or to the room the segment has cuts long text short without telling anybody)."""
+    chain = [('gr_make_seg', ('(anonymous namespace)::makeAndInitialize',)),
+             ('(anonymous namespace)::makeAndInitialize', ('graphite2::Segment::Segment', 'graphite2::Segment::read_text')),
+             ('graphite2::Segment::read_text', ('process_utf_data',))]
+    for q, callees in chain:
+        fn = fx.one(q)
+        ps = [p_ for p_ in fn.f['params'] if p_['n'].lower() in ('nchars', 'n_chars')]
+        inst = 'nChars in %s' % q.split('::')[-1]
+        if len(ps) != 1:
+            run.broken('TEXTFLOW', inst, 'parameter nChars not found', fn.where())
+            continue
+        vid = ps[0]['vid']
+        wr = [e for _, e in fn.elements() if (e['k'] in ('BinaryOperator', 'CompoundAssignOperator') and e.get('op', '').endswith('=') and e['op'] not in ('==', '!=', '<=', '>=')
+                                              and fn.strip(e['c'][0]).get('vid') == vid) or
+              (e['k'] == 'UnaryOperator' and e.get('op') in ('pre++', 'pre--', 'post++', 'post--') and fn.strip(e['c'][0]).get('vid') == vid)]
+        if wr:
+            run.violated('TEXTFLOW', inst, fn.loc(wr[0]), '%s changes the caller\'s character count (`%s`): the text is no longer read up to nChars characters or the NUL, whichever comes first -- it is cut '
+                         'short at a limit the documentation does not mention' % (q.split('::')[-1], fn.render(wr[0])[:80]))
+            continue
+        bad, n = None, 0
+        for _, e in fn.elements():
+            if e['k'] not in ('CallExpr', 'CXXMemberCallExpr', 'CXXConstructExpr', 'CXXTemporaryObjectExpr', 'CXXNewExpr'):
+                continue
+            fq = e.get('fq') or ''
+            if not any(fq == c_ or fq.startswith(c_ + '<') or fq.split('<')[0] == c_ for c_ in callees):
+                continue
+            args = e.get('args') if e.get('args') is not None else (e.get('c') or [])
+            mention = [a for a in args if a is not None and any(x['k'] == 'DeclRefExpr' and x.get('vid') == vid for x in fn.walk(a))]
+            for a in mention:
+                n += 1
+                x = fn.strip_all_casts(fn.N(a))
+                if not (x['k'] == 'DeclRefExpr' and x.get('vid') == vid):
+                    bad = (e, a)
+        if bad:
+            run.violated('TEXTFLOW', inst, fn.loc(bad[0]), '%s hands on `%s` instead of the caller\'s nChars itself: the count that sizes the segment / bounds the decoding loop is no longer the one the '
+                         'application gave' % (q.split('::')[-1], fn.render(fn.N(bad[1]))[:80]))
+        elif n < 1:
+            run.broken('TEXTFLOW', inst, 'nChars is not handed to %s' % (callees,), fn.where())
+        else:
+            run.held('TEXTFLOW', inst, fn.where(), 'never assigned; handed on unchanged %d time(s)' % n)
+
+
 def run(run):
     fx = run.facts('Q0')
-    for name_, f_ in (('NULSTOP', nulstop), ('COUNTSYNC', countsync), ('TEXTFLOW', textflow), ('NULSTOP', textexec)):
+    for name_, f_ in (('NULSTOP', nulstop), ('COUNTSYNC', countsync), ('TEXTFLOW', textflow), ('TEXTFLOW', ncharsflow), ('NULSTOP', textexec)):
         try:
             f_(run, fx)
         except AnalysisBroken as ex:          # one rule not recognising a new shape must not keep the others from deciding
